@@ -36,7 +36,10 @@ def expected_cbs(shape, dest, broadcast):
 def frames_for(dll, d, sa=0x90):
     """(kind, id, data, fd, broadcast?, dest-specific answer expected?)"""
     fr = [('pdu1-app', R.ref_can_id(6, 0xD000 + d, sa), [1, 2, 3, 4, 5, 6, 7, 8], False, False),
+          ('pdu1-app-dp1', R.ref_can_id(6, 0x1D000 + d, sa), [8, 7, 6, 5, 4, 3, 2, 1], False, False),      # data page 1
+          ('pdu1-app-dp1-low', R.ref_can_id(3, 0x10100 + d, sa), [1], False, False),
           ('pdu2', R.ref_can_id(6, 0xFE00 + d, sa), [9, 8, 7], False, True),
+          ('pdu2-dp1', R.ref_can_id(6, 0x1F000 + d, sa), [9, 8, 7, 6], False, True),
           ('request', R.ref_can_id(6, 0xEA00 + d, sa), [0xCA, 0xFE, 0x00], False, False)]
     if dll == 'j1939-21':
         fr += [('tp-rts', R.ref_tp_cm_id(7, d, sa), R.ref_rts(20, 3, 3, 0xD000), False, False),
